@@ -618,7 +618,7 @@ def probe_terncond():
 def probe_strnest():
     import logging
     logging.disable(logging.CRITICAL)
-    for src in ('struct M { char s[3]; } g = {"ab"};', 'char a[2][3] = {"ab", "cd"};'):
+    for src in ('struct M { char s[3]; } g = {"ab"};', 'char a[2][3] = {"ab", "cd"};', 'char s[] = {"abc"};'):
         res = ppci_vars(src, "x86_64")
         if res[0] == "internal":
             return "`%s` -> %s [%s]" % (src, res[2], res[1])
